@@ -27,8 +27,9 @@ Mappings  == {"dict", "odict", "mproxy", "cmap", "cmapfalsy", "dictget"}
 \* ("...child": the class inherits its first fields from a base of the same flavour and declares the rest itself)
 \* ("slotsonlychild": a subclass, without __slots__ of its own, of a slots-only class; "slotsonlygrand": a subclass that adds slots;
 \*  "plainchild": annotated fields inherited from a base, and a member of its own whose annotation cannot be evaluated)
+\*  "plaingrand": annotated members declared along a chain of three plain classes, and by both arms of a diamond above them;
 \*  "plaindesc": every member is a property over a raw entry of the same name in the instance __dict__)
-Structs   == {"dc", "dcslots", "plain", "slotsonly", "varsonly", "dcchild", "dcslotschild", "slotsonlychild", "slotsonlygrand", "plainchild",
+Structs   == {"dc", "dcslots", "plain", "slotsonly", "varsonly", "dcchild", "dcslotschild", "slotsonlychild", "slotsonlygrand", "plainchild", "plaingrand",
               "dcfalsy", "plaindesc"}
 NTs       == {"nt", "ntfalsy"}
 \* classes for which inspection.issequencetype holds (peeked with next(iter(x), ()))
